@@ -349,6 +349,10 @@ func (r *BinaryReader) Read(b []byte) (int, error) {
 
 // ReadAt complies with io.ReaderAt.
 func (r *BinaryReader) ReadAt(b []byte, off int64) (int, error) {
+	if _, ok := r.f.(*binaryReaderReader); ok {
+		// can only be read in sequence: a read at the current offset would take its bytes away from the next read
+		return 0, errors.New("reader: does not implement io.Seeker or io.ReaderAt")
+	}
 	data, err := r.f.Bytes(b, int64(len(b)), off)
 	return len(data), err
 }
